@@ -1,9 +1,12 @@
 #!/bin/sh
-# usage: tools/confirm_seed.sh <worktree> <cargo test args...>  -> prints CONFIRMED with=<rc> without=<rc>
+# usage: tools/confirm_seed.sh <worktree> <cargo test args...>  -> prints CONFIRM with=<rc> without=<rc>
+# (no `git stash`: refs/stash is shared between the worktrees of one repository)
 WT="$1"; shift
 cd "$WT" || exit 2
-CARGO_NET_OFFLINE=true cargo test --offline "$@" >/tmp/confirm_with.log 2>&1; A=$?
-git stash -q
-CARGO_NET_OFFLINE=true cargo test --offline "$@" >/tmp/confirm_without.log 2>&1; B=$?
-git stash pop -q
+P="$(mktemp /tmp/confirm_XXXXXX.diff)"
+git diff > "$P"
+CARGO_TARGET_DIR="$WT/target" CARGO_NET_OFFLINE=true cargo test --offline "$@" >/tmp/confirm_with.log 2>&1; A=$?
+git apply -R "$P"
+CARGO_TARGET_DIR="$WT/target" CARGO_NET_OFFLINE=true cargo test --offline "$@" >/tmp/confirm_without.log 2>&1; B=$?
+git apply "$P"; rm -f "$P"
 echo "CONFIRM $WT: with-change rc=$A (want !=0), without rc=$B (want 0)"
